@@ -201,11 +201,12 @@ def finish(prop, tier, seed, merged, meta, t0, replay_mode=False):
     lines = []
     unlisted = []
     known_seen = []
-    os.makedirs(os.path.join(VERIF, 'replays'), exist_ok=True)
+    rdir = os.path.join(VERIF, 'replays') if not os.environ.get('VERIF_NOEVIDENCE') else os.path.join(VERIF, 'replays', 'scratch')
+    os.makedirs(rdir, exist_ok=True)
     for key in sorted(merged['witness']):
         n = merged['wcount'][key]
         wit = merged['witness'][key]
-        path = os.path.join(VERIF, 'replays', '%s-%s.json' % (prop, slug(key)))
+        path = os.path.join(rdir, '%s-%s.json' % (prop, slug(key)))
         with open(path, 'w') as f:
             json.dump({'property': prop, 'key': key, 'seed': seed, 'tier': tier, 'repo': REPO,
                        'count': n, 'witnesses': wit}, f, indent=1, sort_keys=True)
@@ -255,7 +256,7 @@ def finish(prop, tier, seed, merged, meta, t0, replay_mode=False):
         'wall_s': round(time.time() - t0, 2),
         'violations': len(unlisted),
     }
-    if not replay_mode:
+    if not replay_mode and not os.environ.get('VERIF_NOEVIDENCE'):
         os.makedirs(os.path.join(VERIF, 'evidence'), exist_ok=True)
         with open(os.path.join(VERIF, 'evidence', '%s.json' % prop), 'w') as f:
             json.dump(ev, f, indent=1, sort_keys=True)
